@@ -323,12 +323,20 @@ func c12Callers(sc *Scenario) *Outcome {
 
 func (c12) Run(t *testing.T, sc *Scenario) *Outcome {
 	if !coldStartDone {
-		o := &Outcome{}
-		coldStart(o, sc)
-		if len(o.Violations) > 0 {
-			return o
+		pre := &Outcome{}
+		coldStart(pre, sc)
+		if len(pre.Violations) > 0 {
+			return pre
 		}
+		o := c12Run(t, sc)
+		o.Evals += pre.Evals
+		o.probe("cold_starts", 1)
+		return o
 	}
+	return c12Run(t, sc)
+}
+
+func c12Run(t *testing.T, sc *Scenario) *Outcome {
 	if sc.Class == "callers" {
 		return c12Callers(sc)
 	}
